@@ -448,57 +448,79 @@ func ruleCommentCollection(c *Ctx) {
 		}
 	}
 	c.check(reset, "skipper: trivia list reset at entry", sk.Pos(), "emptied before the first advance", "the trivia list is not reset when skipping starts: comments of an earlier token are attached again to the next one")
-	// appends
-	cxs := lf.contextsOf(sk)
-	n := 0
-	allInstrs(sk, func(b *ssa.BasicBlock, _ int, in ssa.Instruction) {
-		st, ok := in.(*ssa.Store)
-		if !ok {
-			return
+	// only the skipper (and helpers called from nowhere else) writes the list
+	for _, f := range c.libFunctions() {
+		if lf.isSkipperFn(f) {
+			continue
 		}
-		if _, ok := isFieldAddr(st.Addr, buf); !ok {
-			return
-		}
-		app, ok := isBuiltinCall(st.Val, "append")
-		if !ok {
-			return
-		}
-		n++
-		key := fmt.Sprintf("skipper: append #%d to the trivia list", n)
-		el, ok := sliceLitElems(app.Call.Args[1])
-		if !ok || len(el) != 1 {
-			c.unres(key, st.Pos(), "appended value not recognised")
-			return
-		}
-		if k, ok := el[0].(*ssa.Const); ok {
-			// empty element: exactly when the current byte is a line break
-			isNL := len(cxs) > 0
-			for _, cx := range cxs {
-				// state before the enclosing block's first call
-				found := false
-				for _, i2 := range b.Instrs {
-					if s2, ok := cx.before[i2]; ok && s2.live {
-						found = true
-						if s2.cur != setOf('\n') {
-							isNL = false
-						}
-						break
-					}
-				}
-				if !found {
-					// no recorded state in this block: use the block's entry state
-					if s2 := cx.in[b]; s2 == nil || !s2.live || s2.cur != setOf('\n') {
-						isNL = false
+		allInstrs(f, func(_ *ssa.BasicBlock, _ int, in ssa.Instruction) {
+			if st, ok := in.(*ssa.Store); ok {
+				if fa, ok := isFieldAddr(st.Addr, buf); ok {
+					if _, isCtor := fa.X.(*ssa.Alloc); !isCtor {
+						c.bad(fnName(f)+": writes the trivia list", st.Pos(), "only the trivia skipper may write the list of leading comments: a write elsewhere attaches trivia to the wrong token or drops it")
 					}
 				}
 			}
-			c.check(k.Value != nil && k.Value.ExactString() == `""` && isNL, key, st.Pos(), "an empty element, appended only when the current byte is '\\n'", "the blank-line marker is not appended exactly on a line break")
-			return
-		}
-		// comment element: derived from a builder that received exactly the bytes advanced over
-		okc := commentElementOK(lf, sk, el[0])
-		c.check(okc, key, st.Pos(), "the comment's bytes: each written byte is the current byte and is advanced over right after", "the appended comment text is not exactly the bytes the skipper advanced over between `//` and the line end")
-	})
+		})
+	}
+	// appends
+	n := 0
+	for _, skf := range lf.skipperFns() {
+		cxs := lf.contextsOf(skf)
+		nf := 0
+		allInstrs(skf, func(b *ssa.BasicBlock, _ int, in ssa.Instruction) {
+			st, ok := in.(*ssa.Store)
+			if !ok {
+				return
+			}
+			if _, ok := isFieldAddr(st.Addr, buf); !ok {
+				return
+			}
+			app, ok := isBuiltinCall(st.Val, "append")
+			if !ok {
+				return
+			}
+			n++
+			nf++
+			key := fmt.Sprintf("skipper: append #%d to the trivia list", nf)
+			if skf != sk {
+				key = fmt.Sprintf("skipper helper %s: append #%d to the trivia list", skf.Name(), nf)
+			}
+			el, ok := sliceLitElems(app.Call.Args[1])
+			if !ok || len(el) != 1 {
+				c.unres(key, st.Pos(), "appended value not recognised")
+				return
+			}
+			if k, ok := el[0].(*ssa.Const); ok {
+				// empty element: exactly when the current byte is a line break
+				isNL := len(cxs) > 0
+				for _, cx := range cxs {
+					// state before the enclosing block's first call
+					found := false
+					for _, i2 := range b.Instrs {
+						if s2, ok := cx.before[i2]; ok && s2.live {
+							found = true
+							if s2.cur != setOf('\n') {
+								isNL = false
+							}
+							break
+						}
+					}
+					if !found {
+						// no recorded state in this block: use the block's entry state
+						if s2 := cx.in[b]; s2 == nil || !s2.live || s2.cur != setOf('\n') {
+							isNL = false
+						}
+					}
+				}
+				c.check(k.Value != nil && k.Value.ExactString() == `""` && isNL, key, st.Pos(), "an empty element, appended only when the current byte is '\\n'", "the blank-line marker is not appended exactly on a line break")
+				return
+			}
+			// comment element: derived from a builder that received exactly the bytes advanced over
+			okc := commentElementOK(lf, skf, el[0])
+			c.check(okc, key, st.Pos(), "the comment's bytes: each written byte is the current byte and is advanced over right after", "the appended comment text is not exactly the bytes the skipper advanced over between `//` and the line end")
+		})
+	}
 	if n < 2 {
 		c.bad("skipper: appends", sk.Pos(), "expected an append for line breaks and one for comments, found %d", n)
 	}
@@ -507,14 +529,33 @@ func ruleCommentCollection(c *Ctx) {
 // commentElementOK: v = [strings.TrimRight](builder.String()) where every WriteByte(builder, x) writes the current byte
 // and is followed in its block by an advance.
 func commentElementOK(lf *lexFacts, sk *ssa.Function, v ssa.Value) bool {
+	if commentSubstringOK(lf, sk, v) {
+		return true
+	}
 	call, ok := v.(*ssa.Call)
 	if !ok {
 		return false
+	}
+	// the text is produced by a skipper helper: each of its results is judged inside the helper
+	if h := call.Call.StaticCallee(); h != nil && h != sk && lf.isSkipperFn(h) && h.Signature.Results().Len() == 1 {
+		good, any := true, false
+		allInstrs(h, func(_ *ssa.BasicBlock, _ int, in ssa.Instruction) {
+			if ret, ok := in.(*ssa.Return); ok && len(ret.Results) == 1 {
+				any = true
+				if !commentElementOK(lf, h, unwrapDeferResult(ret.Results[0])) {
+					good = false
+				}
+			}
+		})
+		return good && any
 	}
 	if cal := call.Call.StaticCallee(); cal != nil && pkgPathOf(cal) == "strings" && strings.HasPrefix(cal.Name(), "Trim") {
 		// only trailing blanks may be trimmed
 		if cal.Name() != "TrimRight" && cal.Name() != "TrimSpace" && cal.Name() != "TrimSuffix" {
 			return false
+		}
+		if commentSubstringOK(lf, sk, call.Call.Args[0]) {
+			return true
 		}
 		call, ok = call.Call.Args[0].(*ssa.Call)
 		if !ok {
@@ -552,4 +593,66 @@ func commentElementOK(lf *lexFacts, sk *ssa.Function, v ssa.Value) bool {
 		}
 	})
 	return good && any
+}
+
+// commentSubstringOK: the comment text is input[a:position] where a is an earlier read of the cursor (the index of
+// the current byte) and, when the end is read, the current byte is the line end or the end of input: the text is then
+// exactly the bytes advanced over in between (only the advance primitive moves the cursor, R10.9).
+func commentSubstringOK(lf *lexFacts, sk *ssa.Function, v ssa.Value) bool {
+	sl, ok := v.(*ssa.Slice)
+	if !ok || sl.Low == nil || sl.High == nil || sl.Max != nil {
+		return false
+	}
+	la := lexerAnchors(lf.c)
+	if la.input == nil || la.pos == nil {
+		return false
+	}
+	if _, ok := isFieldLoad(sl.X, la.input); !ok {
+		return false
+	}
+	low, okL := sl.Low.(*ssa.UnOp)
+	high, okH := sl.High.(*ssa.UnOp)
+	if !okL || !okH {
+		return false
+	}
+	if _, ok := isFieldLoad(low, la.pos); !ok {
+		return false
+	}
+	if _, ok := isFieldLoad(high, la.pos); !ok {
+		return false
+	}
+	if !instrDominates(low, high) || !instrDominates(high, sl) {
+		return false
+	}
+	// no advance between reading the end and taking the slice (same block, checked instruction by instruction)
+	if high.Block() != sl.Block() {
+		return false
+	}
+	seen := false
+	for _, in := range high.Block().Instrs {
+		if in == ssa.Instruction(high) {
+			seen = true
+		}
+		if in == ssa.Instruction(sl) {
+			break
+		}
+		if c2, ok := in.(*ssa.Call); ok && seen && lf.mayAdvance(c2.Call.StaticCallee()) {
+			return false
+		}
+	}
+	// at the end read, the current byte is the line end or the end of input
+	cxs := lf.contextsOf(sk)
+	if len(cxs) == 0 {
+		return false
+	}
+	for _, cx := range cxs {
+		st := cx.before[high]
+		if st == nil {
+			return false
+		}
+		if st.live && !st.cur.minus(setOf('\n', 0)).empty() {
+			return false
+		}
+	}
+	return true
 }
